@@ -247,6 +247,16 @@ fn pack_parse(base_xs: &Xstate, r: &mut crate::rng::Rng, fs: &[Field], nest: Opt
     match packed {
         Err(e) => PackParse { p: format!("P {}", e), v: "V -".into(), base: 0, packed: None, values: None },
         Ok(b) => {
+            // every third record is parsed as a slice of a longer input (what `bits` / `bytes` hand out for a nested
+            // record): the same bits, starting somewhere inside a buffer that has other bits before and behind them
+            // (which records: decided by their length, not by the random stream)
+            let b = if b.len() % 3 == 1 {
+                let (k, len) = (1 + b.len() % 13, b.len());
+                let whole = b.clone();
+                let _ = xs.push_data(Cell::Bitstr(b));
+                let cut = exec(&mut xs, vec![Step::Word(format!("[ 0x5a 0xc3 ] >bitstr open-bitstr {} bits close-bitstr swap |a5| 3 collect >bitstr open-bitstr {} bits drop {} bits close-bitstr", k, k, len))]);
+                match (cut, xs.pop_data()) { (Ok(()), Ok(Cell::Bitstr(s))) if s.len() == len => s, _ => whole }
+            } else { b };
             let bits = bits_vec(&b);
             let base = b.start();
             while xs.data_depth() > 0 {
